@@ -227,7 +227,7 @@ func nondetCensus(r *Run, label string, rootNames []string, allowTime bool) {
 		return "", false
 	}
 	for _, fn := range fns {
-		name := p.fnName(fn)
+		name := p.hostName(fn)
 		for _, b := range fn.Blocks {
 			for _, in := range b.Instrs {
 				switch x := in.(type) {
